@@ -653,7 +653,13 @@ bool SPxLPBase<Rational>::readLPF(
 
             have_value = false;
             colidx = LPFreadColName(pos, cnames, cset, &emptycol, spxout);
-            vec.add(colidx, val);
+
+            // a variable may occur more than once in the objective: the terms add up, as in the constraints
+            if(vec.pos(colidx) < 0)
+               vec.add(colidx, val);
+            else
+               vec.value(vec.pos(colidx)) += val;
+
             break;
 
          case CONSTRAINTS:
